@@ -1,6 +1,9 @@
-(* C19/Properties.v — the property theorems.  Repaired = /repo HEAD (the five C19 fixes e92fcd5, de0488c, b498cfb,
-   c73561e, 35c2549 are committed there; the full theorems are about it and the correspondence check compares with it
-   only); Defective = the code before those commits, kept solely for the historical _refuted witnesses.  Specification-side definitions (item, enc, wf_pkt, wf_tail, frame4_ok, ...) live in
+(* C19/Properties.v — the property theorems.  Repaired = /repo HEAD (fixes e92fcd5, de0488c, b498cfb, c73561e, 35c2549
+   committed) PLUS the three open repairs fixes/C19_opt82_cut_fragment.patch, fixes/C19_reply_skip_empty_options.patch,
+   fixes/C19_giaddr_ipv4_only.patch; the full theorems are about it.  Head = /repo HEAD exactly (five fixes in, the three
+   open ones not: cut_fragment absent, addr_opt always emitted, wrap_ip_udp panics on non-IPv4): the correspondence check
+   falls back to it with a KNOWN-FINDING line until the patches are applied, and the three newest _refuted theorems are
+   about it.  Defective = the code before every fix; it only serves the historical _refuted witnesses.  Specification-side definitions (item, enc, wf_pkt, wf_tail, frame4_ok, ...) live in
    Proofs.v.  A "well-formed" DHCPv4 message is wf_pkt hdr its tl with wf_tail tl: 240 header bytes, pads and complete
    options in any order, then EITHER the end of the packet (missing END) OR END + arbitrary trailer;
    C19_decodable_is_wf shows that this is every message the reference decoder can decode. *)
@@ -303,9 +306,9 @@ Print Assumptions C19_opt82_keep_drop_strip_nonvacuous.
 (* ---------------------------------------------------------------- the other IPv4 framers *)
 (* WrapIPUDP (the relay/proxy framer, ports 67->68) and BuildUDPPacket: as C19_ipv4_frame_verifies, plus the header
    fields are the requested ones (0x45, TTL 64, protocol 17, addresses, ports) and the UDP checksum is never 0 *)
-Theorem C19_wrap_frame_verifies : forall payload src dst s4 d4,
+Theorem C19_wrap_frame_verifies : forall v payload src dst s4 d4,
   to4 src = Some s4 -> to4 dst = Some d4 -> ip_ok src -> ip_ok dst -> bytes_ok payload -> blen payload <= 65507 ->
-  exists f, wrap_ip_udp payload src dst = Ok f /\ frame4_ok f payload /\ frame4_fields f s4 d4 67 68 /\
+  exists f, wrap_ip_udp v payload src dst = Ok f /\ frame4_ok f payload /\ frame4_fields f s4 d4 67 68 /\
             firstn 2 (skipn 26 f) <> [0; 0].
 Proof. exact wrap_ip_udp_ok. Qed.
 Print Assumptions C19_wrap_frame_verifies.
@@ -331,7 +334,7 @@ Example C19_frames_carry_nonvacuous :
   fold_loop 1 (sum_words [255;255;122;210] + sum_words [255;255;255;255] + 17 + 10 + (0 + 68 + 10 + sum_words [132;199])) = OutOfFuel /\
   (exists f, build_ipv4_udp_frame Repaired s d 0 68 [132;199] = Ok (Some f) /\ verifies (pseudo4 f ++ skipn 20 f) = true) /\
   (exists f, build_udp_packet s d 0 68 [132;199] = Ok f /\ verifies (pseudo4 f ++ skipn 20 f) = true) /\
-  (exists f, wrap_ip_udp [132;199] s d = Ok f /\ verifies (firstn 20 f) = true /\ verifies (pseudo4 f ++ skipn 20 f) = true) /\
+  (exists f, wrap_ip_udp Repaired [132;199] s d = Ok f /\ verifies (firstn 20 f) = true /\ verifies (pseudo4 f ++ skipn 20 f) = true) /\
   (exists f, build_ipv4_udp_frame Repaired (Some [10;0;0;1]) d 67 68 [245;82] = Ok (Some f) /\ firstn 2 (skipn 26 f) = [255;255] /\
              verifies (pseudo4 f ++ skipn 20 f) = true).
 Proof. cbv zeta. split; [vm_compute; reflexivity|]. repeat split; eexists; vm_compute; repeat split. Qed.
@@ -664,3 +667,64 @@ Example C19_resolved_long_value_nonvacuous :
     opt_value 6 (v_opts v) = concat (repeat [8;8;4;4] 65) /\ verifies (pseudo4 f ++ skipn 20 f) = true.
 Proof. eexists. eexists. vm_compute. repeat split. Qed.
 Print Assumptions C19_resolved_long_value_nonvacuous.
+
+(* ================================================================ three open findings (audit round 2): repaired behaviour + witnesses *)
+(* (a) fixes/C19_opt82_cut_fragment.patch.  With the cut-off trailing option dropped first, InsertOption82(replace) works
+   for EVERY client message of at least 240 bytes (bytes only; no decodability hypothesis): the result is decodable,
+   carries the relay's option 82 exactly once (last), and the fixed header is untouched *)
+Theorem C19_opt82_replace_any_message : forall pkt d, bytes_ok pkt -> (240 <= length pkt)%nat -> (length d <= 255)%nat ->
+  exists out opts e, insert_option82 Repaired pkt (82 :: blen d :: d) Replace = Ok out /\
+    firstn 240 out = firstn 240 pkt /\ ref_options out = (opts ++ [(82, d)], e) /\ e <> Truncated /\
+    filter (has_code 82) opts = [].
+Proof. exact opt82_replace_any_message. Qed.
+Print Assumptions C19_opt82_replace_any_message.
+
+(* /repo HEAD: a cut-off last option (60, declared 9 bytes, 4 present) swallows the head of the relay's option 82; what
+   is forwarded decodes fine and contains NO option 82 *)
+Theorem C19_opt82_truncated_swallow_refuted :
+  exists pkt d out, bytes_ok pkt /\ (240 <= length pkt)%nat /\ (length d <= 255)%nat /\
+    insert_option82 Head pkt (82 :: blen d :: d) Replace = Ok out /\
+    snd (ref_options out) <> Truncated /\ count_opt 82 (fst (ref_options out)) = 0%nat /\
+    (exists out', insert_option82 Repaired pkt (82 :: blen d :: d) Replace = Ok out' /\ count_opt 82 (fst (ref_options out')) = 1%nat).
+Proof.
+  exists (ex_hdr ++ [53;1;1; 60;9;49;181;69;150]), [1;1;124;2;6;175;90;68;109;227;186]. eexists.
+  split; [apply Forall_forall; intros x Hx; vm_compute in Hx; unfold byte; repeat (destruct Hx as [<-|Hx]; [lia|]); contradiction|].
+  split; [vm_compute; lia|]. split; [cbn; lia|]. vm_compute. split; [reflexivity|]. split; [discriminate|]. split; [reflexivity|].
+  eexists. split; reflexivity.
+Qed.
+Print Assumptions C19_opt82_truncated_swallow_refuted.
+
+(* (b) fixes/C19_reply_skip_empty_options.patch.  No address-valued option (1, 3, 6, 54) of zero length in the reply,
+   for all lease parameters and validated raw options *)
+Theorem C19_reply_addr_options_nonempty : forall lease mask sid router dns rt routes extra o, Forall raw_ok extra ->
+  In o (resolved_opts lease mask sid router dns rt routes extra) -> In (fst o) [1; 3; 6; 54] -> snd o <> [].
+Proof. exact resolved_addr_options_nonempty. Qed.
+Print Assumptions C19_reply_addr_options_nonempty.
+
+(* /repo HEAD: a DNS list with only an IPv6 entry, an IPv6 router and a nil mask give options 1, 3 and 6 of length 0
+   (RFC 2132: minimum length 4) *)
+Theorem C19_reply_zero_length_refuted :
+  exists f v, build_response_resolved Head 1 None [1;2;3;4;5;6] 5 (Some [10;0;0;2]) (Some (repeat 32 16)) (Some [10;0;0;1])
+                [] [Some (repeat 32 16)] 3600 [] [] = Ok (Some f) /\
+    ref_decode4 (skipn 28 f) = Some v /\ In (1, []) (v_opts v) /\ In (3, []) (v_opts v) /\ In (6, []) (v_opts v) /\
+    (exists f' v', build_response_resolved Repaired 1 None [1;2;3;4;5;6] 5 (Some [10;0;0;2]) (Some (repeat 32 16)) (Some [10;0;0;1])
+                     [] [Some (repeat 32 16)] 3600 [] [] = Ok (Some f') /\ ref_decode4 (skipn 28 f') = Some v' /\
+                   v_opts v' = [(53, [5]); (51, [0;0;14;16]); (54, [10;0;0;1])]).
+Proof.
+  eexists. eexists. vm_compute. split; [reflexivity|]. split; [reflexivity|]. repeat split; try tauto.
+  eexists. eexists. repeat split.
+Qed.
+Print Assumptions C19_reply_zero_length_refuted.
+
+(* (c) fixes/C19_giaddr_ipv4_only.patch.  WrapIPUDP never panics and never runs out of fuel, for any addresses and any
+   payload (for non-IPv4 addresses it returns no frame) *)
+Theorem C19_wrap_never_crashes : forall payload src dst, exists f, wrap_ip_udp Repaired payload src dst = Ok f.
+Proof. exact wrap_never_crashes. Qed.
+Print Assumptions C19_wrap_never_crashes.
+
+(* /repo HEAD: an IPv6 giaddr (accepted by net.ParseIP and by the config loader) makes the proxy's reply path panic *)
+Theorem C19_wrap_ipv6_giaddr_refuted :
+  proxy_reply4 Head (wf_pkt ex_hdr ex_server [255]) (Some (repeat 32 16)) 3600 = Panic /\
+  set_giaddr (wf_pkt ex_hdr ex_server [255]) (Some (repeat 32 16)) = wf_pkt ex_hdr ex_server [255].
+Proof. vm_compute. split; reflexivity. Qed.
+Print Assumptions C19_wrap_ipv6_giaddr_refuted.
